@@ -130,6 +130,14 @@ func HarnessC08PoolIsolation() {
 	check(err0 == nil || err0.Code() == CodeInvalidArgument, "a corrupt compressed message is rejected as invalid_argument")
 	closesAfterCorrupt := len(log)
 	check(closesAfterCorrupt >= 1, "the decompressor is closed on the error path before it returns to the pool")
+	// two checkouts that are out at the same time must be different objects
+	// (a decompressor returned to the pool twice would be handed to two calls)
+	d1, e1 := pool.getDecompressor(bytes.NewBuffer(nil))
+	d2, e2 := pool.getDecompressor(bytes.NewBuffer(nil))
+	check(e1 == nil && e2 == nil, "checking out decompressors succeeds")
+	check(d1 != d2, "two calls never share a pooled decompressor after a corrupt message")
+	_ = pool.putDecompressor(d1)
+	_ = pool.putDecompressor(d2)
 	// then the valid one through the same pool
 	dst := &bytes.Buffer{}
 	err := pool.Decompress(dst, wire, limit)
